@@ -685,6 +685,11 @@ class FileCache(ProxyValue):
 
     base_path = "."
 
+    def get_hash(self, data: Optional[bytes] = None) -> str:
+        # `data` is the serialization, which for a FileCache is only the name of the file. Hash
+        # the value itself, so that a value has the same hash whether or not it is being recorded.
+        return super().get_hash()
+
     def _serialize(self) -> bytes:
         # User defined serialization.
         return pickle_dumps(self.instance)
